@@ -713,6 +713,13 @@ Exec(body, i, st, tr, env) ==
 
 \* ---------------------------------------------------------------- verdict on one recording
 SameEnv(a, b) == DOMAIN a = DOMAIN b /\ \A m \in DOMAIN a : Same(a[m], b[m])
+\* which binding differs (a = the machine's final environment, b = the recorded one)
+EnvDiff(a, b) ==
+  LET bad == {m \in DOMAIN a \cup DOMAIN b : IF m \in DOMAIN a /\ m \in DOMAIN b THEN ~Same(a[m], b[m]) ELSE TRUE}
+      m == CHOOSE m \in bad : TRUE
+  IN IF m \notin DOMAIN b THEN "a name is bound in Python and not in the recording"
+     ELSE IF m \notin DOMAIN a THEN "a name is unbound in Python and bound in the recording"
+     ELSE "a name is bound to another value than in Python"
 
 \* rec = [trace, exc, final, heap];  result [ok, kind, why, at, nm]
 Accept(c, rec, fl) ==
@@ -723,6 +730,6 @@ Accept(c, rec, fl) ==
                        nm |-> r.st.nm]
      ELSE IF r.st.l # Len(rec.trace) + 1 THEN bad("program", "extra events after the program completed: " \o rec.trace[r.st.l].e)
      ELSE IF r.x # rec.exc THEN bad("program", "exception differs: machine '" \o r.x \o "' recorded '" \o rec.exc \o "'")
-     ELSE IF ~SameEnv(r.env, rec.final) THEN bad("program", "final bindings differ")
+     ELSE IF ~SameEnv(r.env, rec.final) THEN bad("program", "final bindings differ: " \o EnvDiff(r.env, rec.final))
      ELSE [ok |-> TRUE, kind |-> "", why |-> "", at |-> r.st.l, nm |-> FALSE]
 =============================================================================
